@@ -19,6 +19,9 @@ def decl_unit(case, docs=False, extra_lines=(), uid=None, meta=None):
     """module with helpers + declaration (+ extra parts: list of (name, lines))"""
     L = (["/// generated case %s" % case["id"]] if docs else []) + ["pub mod c_%s {" % case["id"], "    #![allow(dead_code, non_camel_case_types, deprecated, unused_imports, unused_variables)]",
          "    use arbitrary_int::*;", "    use bitbybit::{bitenum, bitfield};", "    use crate::vrt;"]
+    if case.get("bare_scope"):
+        # nothing of arbitrary_int is imported by name: only what the user wrote through a path is available
+        L.remove("    use arbitrary_int::*;")
     parts = []
     if case.get("prelude_lines"):
         L += ["    " + l for l in case["prelude_lines"]]
@@ -765,6 +768,28 @@ def _check_c18(tier, seed, macro_profile="macrodev"):
                    family=c.get("family", c["kind"]), program="\n".join(NO_STD_HEADER[:4]) + "\n" + unit_text(u), observed="%s: %s" % (code, msg[:300]), expected="no diagnostic",
                    replay_kind="compile", expect="accept", header="no_std")
         res.violations.append((dict(category="name-capture", shape="/".join(captured)), rec))
+    # bare scope: declarations whose arbitrary-int and helper types are all written through a path (`arbitrary_int::u3`, `inner::E`), on a native base,
+    # in a module that imports no arbitrary_int name at all -- generated code must reach arbitrary_int by path, never through what the user happens to import
+    b_units = []
+    for u in units:
+        c = u.meta["case"]
+        if u.uid in clean and c["kind"] == "bitfield" and c.get("path_types") and c["base"] == c["storage"]:
+            b_units.append(decl_unit(dict(c, bare_scope=True), docs=True, uid=u.uid + "/bare-scope"))
+    with build.Lock():
+        b_errors, b_st = cm.outcomes(b_units, art, "c18b", header=NO_STD_HEADER, iterate=True)
+    cov["bare_scope_programs"] = len(b_units)
+    cov["bare_scope_clean"] = len(b_units) - len(b_errors)
+    cov["evaluations"] += len(b_units)
+    for u in b_units:
+        errs = b_errors.get(u.uid, [])
+        if not errs:
+            continue
+        part, code, msg = errs[0]
+        c = u.meta["case"]
+        rec = dict(kind="import-dependence", what="generated code stops compiling when the enclosing module does not import arbitrary_int's type names (the user wrote every such type through a path)", case=u.uid,
+                   family=c.get("family", c["kind"]), program="\n".join(NO_STD_HEADER[:4]) + "\n" + unit_text(u), observed="%s: %s" % (code, msg[:300]), expected="no diagnostic",
+                   replay_kind="compile", expect="accept", header="no_std")
+        res.violations.append((dict(category="import-dependence", shape=str(code)), rec))
     bodies = set()
     shown = 0
     allowed = ALLOWED_HEADS | user_idents
